@@ -90,7 +90,7 @@ func (e *c11Env) call(name string, f func() error) (err error, verdict *vVerdict
 	d2 := vGoroutineDump()
 	blocked := func(d string) bool {
 		for _, g := range strings.Split(d, "\n\n") {
-			if strings.Contains(g, "runLaterIfActive") && (strings.Contains(g, "[chan send") || strings.Contains(g, "[chan receive")) {
+			if (strings.Contains(g, "runLaterIfActive") || strings.Contains(g, "ConfigureMixFraction")) && (strings.Contains(g, "[chan send") || strings.Contains(g, "[chan receive")) {
 				return true
 			}
 		}
@@ -104,7 +104,7 @@ func (e *c11Env) call(name string, f func() error) (err error, verdict *vVerdict
 		}
 	}
 	if blocked(d1) && blocked(d2) {
-		v := vFailf("request-blocked|"+name, "%s did not return: after 10 s and again 1.5 s later its goroutine sits in the same channel operation of runLaterIfActive (source running per harness: %v)\n%s",
+		v := vFailf("request-blocked|"+name, "%s did not return: after 10 s and again 1.5 s later its goroutine sits in the same channel operation of the request path (source running per harness: %v)\n%s",
 			name, e.running, vTrim(c11Relevant(d2), 2500))
 		return nil, &v
 	}
@@ -115,7 +115,7 @@ func (e *c11Env) call(name string, f func() error) (err error, verdict *vVerdict
 func c11Relevant(dump string) string {
 	var out []string
 	for _, g := range strings.Split(dump, "\n\n") {
-		if strings.Contains(g, "usnistgov/dastard.") && (strings.Contains(g, "runLaterIfActive") || strings.Contains(g, "CoreLoop") || strings.Contains(g, "queuedResults")) {
+		if strings.Contains(g, "usnistgov/dastard.") && (strings.Contains(g, "runLaterIfActive") || strings.Contains(g, "CoreLoop") || strings.Contains(g, "queuedResults") || strings.Contains(g, "ConfigureMixFraction")) {
 			out = append(out, g)
 		}
 	}
@@ -564,11 +564,7 @@ func c11Run(c c11Case) (v vVerdict) {
 					mustOK = true
 				}
 			} else {
-				err = fmt.Errorf("not judged") // the Lancero source object outlives its runs; mix requests between runs are not part of the property
-			}
-			notJudged := c.Source == "lancero" && !c.RealRPC && !e.running
-			if notJudged {
-				continue
+				mustErr = "mix request while no source is running" // must be answered with an error, not wait for a block assembler that is gone
 			}
 			mfo := &MixFractionObject{ChannelIndices: append([]int(nil), st.Chans...), MixFractions: append([]float64(nil), st.Fracs...)}
 			err, bad = e.call("ConfigureMixFraction", func() error { var r bool; return sc.ConfigureMixFraction(mfo, &r) })
@@ -698,7 +694,7 @@ func c11GenStep(t *rapid.T, c *c11Case) c11Step {
 	case k < 20:
 		return c11Step{Op: "stopcoupling"}
 	case k < 21:
-		return c11Step{Op: "rawblock", N: rapid.SampledFrom([]int{1, 100, 500, 100000, 0, -1, -1000000}).Draw(t, "rawn")}
+		return c11Step{Op: "rawblock", N: rapid.SampledFrom([]int{1, 100, 500, 100000, 0, -1, -1000000, 1 << 62, 1<<63 - 1, 1 << 40}).Draw(t, "rawn")}
 	case k < 22:
 		st := c11Step{Op: "mix"}
 		n := rapid.IntRange(0, 3).Draw(t, "nmix")
